@@ -385,7 +385,8 @@ class Interp(object):
             return getattr(obj, attr)
         except AttributeError:
             if isinstance(obj, Arr) or hasattr(obj, 'is_elem_') or isinstance(obj, (Poly, Rat, Fr)) or \
-                    type(obj).__module__.startswith('ndverif'):
+                    type(obj).__module__.startswith('ndverif') or \
+                    (callable(obj) and str(getattr(obj, '__module__', '')).startswith('ndverif')):
                 # a real ndarray / numpy scalar may well have it: the summary is missing, not the attribute (the same holds
                 # for every stand-in object of the analysis itself: a masked selection, a data dependent index set, ...)
                 raise AnalysisError('attribute %r of %s is not modelled [at %s]' % (attr, type(obj).__name__, self.where()))
